@@ -57,6 +57,12 @@ def run(ctx):
                        'test came out true, directly or through a value that implies it; the fact is stable, only this thread links '
                        'to its local head), or splices what is left back onto the owner\'s pending list under the mutex and then '
                        'issues a wake-up of the owner', floor=4)
+    ctx.rule('R-C08i', 'KICK-NOT-FORGOTTEN: a wake-up (the one-shot kick) consumed by the kernel wait is never forgotten: in every poll '
+                       'slot that runs the pending events, on every path on which an entry of the batch the wait returned was '
+                       'identified as this thread\'s kick token, the pending list is looked at under the owner\'s mutex (the runner '
+                       'is entered) before the slot returns -- for every position of the kick in the batch: the local that records '
+                       'it is not cleared or overwritten by a later batch entry, and the branch that decides whether the events are '
+                       'run is refuted only where no kick was seen', floor=2)
     derive_keys(ctx.prog)
     ctx.section(post)
     ctx.section(runner)
@@ -64,6 +70,7 @@ def run(ctx):
     ctx.section(transport_follows_count)
     ctx.section(wake_outlives_pending)
     ctx.section(batch_drained)
+    ctx.section(kick_not_forgotten)
 
 
 def pt(e):
@@ -713,7 +720,7 @@ def _mentions_var(text, v):
     return re.search(r'(?<![\w$@~.>])' + re.escape(v) + r'(?![\w$@~])', text) is not None
 
 
-def _pending_known_empty(g, ls):
+def _pending_known_empty(g, ls, transfer_only=False):
     """Forward must-analysis.  State (KNOWN, DRAINED): KNOWN = the spellings of the states whose pending list is known
     to be empty as far as this thread is concerned -- it was found empty (iv_list_empty, directly in the branch or
     through a local that holds the result of the test) or detached whole, with the owner's list mutex held, and since
@@ -801,6 +808,9 @@ def _pending_known_empty(g, ls):
 
     def join(a, b):
         return (a[0] & b[0], a[1] and b[1])
+    if transfer_only:
+        # (R-C08i composes the DRAINED component with its own state)
+        return tr, edge
     _, ev_in = forward(g, (frozenset(), False), tr, join, edge=edge)
     return ev_in
 
@@ -1242,31 +1252,7 @@ def who_runs(ctx):
     for root, g, sites in ctxs:
         if kind.get(root.q) != 'poll slot':
             continue
-        stp = [p['name'] for p in root.params if p.get('record') == 'iv_state']
-        if not stp:
-            raise AnalysisBroken('%s: no state parameter' % root.name)
-        arrays = set()
-        for e in g.events():
-            if e['ev'] == 'call' and e.get('callee') in WAITS:
-                rv = root_var(e['args'][WAITS[e['callee']]])
-                if rv is not None:
-                    arrays.add(rv['name'])
-
-        def is_state(x, stp=stp):
-            return isinstance(x, dict) and stp[0] in h08.spellings(x)
-
-        def is_token(x, arrays=arrays):
-            if not isinstance(x, dict) or h08.var_name(x) is not None:
-                return False
-            if any(y.get('k') == 'member' and y.get('record') in KERNEL_RECORDS for y in walk(x)):
-                return True
-            rv = root_var(x)
-            return rv is not None and rv['name'] in arrays
-
-        def token_test(c, pol=True):
-            """the condition, taken with this polarity, says that a reported token is this thread's state"""
-            return any(op == '==' and ((is_state(l) and is_token(r)) or (is_state(r) and is_token(l)))
-                       for (op, lc, rc, l, r) in norm_cond(c, pol) if isinstance(l, dict) and isinstance(r, dict))
+        token_test = _kick_token_tests(root, g)[0]
         ev_in = _seen_or_const(g, token_test)
         for cs in sites:
             ok = ev_in.get(pt(cs)) is True
@@ -1331,6 +1317,61 @@ def _param_is_own(prog, f, pname, polls, taken, depth=0, handlers=frozenset()):
         elif not _param_is_own(prog, c, v, polls, taken, depth + 1, handlers):
             return False
     return True
+
+
+def _kick_token_tests(root, g):
+    """For a poll slot (inlined, normalised): (token_test, token_rel).  token_test(c, pol): the condition, taken with
+    this polarity, says that a token the kernel wait reported is this thread's state (the slot's struct iv_state *
+    parameter compared equal to a value read from the array the wait filled: member of epoll_event / epoll_data, or
+    rooted at the array passed to epoll_wait*).  token_rel(x): +1 if the expression is true exactly when the token
+    is the state, -1 if exactly when it is not, 0 otherwise."""
+    stp = [p['name'] for p in root.params if p.get('record') == 'iv_state']
+    if not stp:
+        raise AnalysisBroken('%s: no state parameter' % root.name)
+    arrays = set()
+    for e in g.events():
+        if e['ev'] == 'call' and e.get('callee') in WAITS:
+            rv = root_var(e['args'][WAITS[e['callee']]])
+            if rv is not None:
+                arrays.add(rv['name'])
+
+    def is_state(x, stp=stp):
+        return isinstance(x, dict) and stp[0] in h08.spellings(x)
+
+    def is_token(x, arrays=arrays):
+        if not isinstance(x, dict) or h08.var_name(x) is not None:
+            return False
+        if any(y.get('k') == 'member' and y.get('record') in KERNEL_RECORDS for y in walk(x)):
+            return True
+        rv = root_var(x)
+        return rv is not None and rv['name'] in arrays
+
+    def token_test(c, pol=True):
+        """the condition, taken with this polarity, says that a reported token is this thread's state"""
+        return any(op == '==' and ((is_state(l) and is_token(r)) or (is_state(r) and is_token(l)))
+                   for (op, lc, rc, l, r) in norm_cond(c, pol) if isinstance(l, dict) and isinstance(r, dict))
+
+    def token_rel(x):
+        x = strip(x)
+        if not isinstance(x, dict):
+            return 0
+        if x.get('k') == 'load':
+            return 0
+        if x.get('k') == 'un' and x.get('op') == '!':
+            return -token_rel(x['e'])
+        if x.get('k') == 'bin' and x.get('op') in ('==', '!='):
+            l, r = x['l'], x['r']
+            if (is_state(l) and is_token(r)) or (is_state(r) and is_token(l)):
+                return 1 if x['op'] == '==' else -1
+            for a, b in ((l, r), (r, l)):
+                sb = strip(b)
+                if isinstance(sb, dict) and (sb.get('k') == 'null' or (sb.get('k') == 'int' and sb['v'] == 0)):
+                    t = token_rel(a)
+                    if t:
+                        return -t if x['op'] == '==' else t
+        return 0
+    return token_test, token_rel
+
 
 
 _CMP = {'==': lambda a, b: a == b, '!=': lambda a, b: a != b, '<': lambda a, b: a < b, '>': lambda a, b: a > b,
@@ -1470,3 +1511,465 @@ def _installations(prog, r, acc):
 def _is_own_state(x):
     c = strip(x)
     return isinstance(c, dict) and c.get('k') == 'call' and c.get('callee') == 'iv_get_state'
+
+
+# --------------------------------------------------------------------------
+# R-C08i: a kick the kernel wait consumed is never forgotten
+# --------------------------------------------------------------------------
+
+def _p_lb(p):
+    """lower bound c (value > c) a predicate on an integer gives, or None"""
+    return p[1] - 1 if p[0] == '==' else (p[1] if p[0] == '>' else None)
+
+
+def _p_ne0(p):
+    return (p[0] == '==' and p[1] != 0) or (p[0] == '>' and p[1] >= 0) or (p[0] == '!=' and p[1] == 0)
+
+
+def _p_weaken(a, b):
+    """a predicate both imply (finite set of results: termination), or None"""
+    if a is None or b is None:
+        return None
+    if a == b:
+        return a
+    la, lb = _p_lb(a), _p_lb(b)
+    if la is not None and lb is not None:
+        m = min(la, lb)
+        if m >= 0:
+            return ('>', 0)
+        if m == -1:
+            return ('>', -1)
+    if _p_ne0(a) and _p_ne0(b):
+        return ('!=', 0)
+    return None
+
+
+def _p_apply(p, op, k):
+    """the predicate after `v op k` (k constant)"""
+    if op == '=':
+        return ('==', k)
+    if p is None:
+        return ('!=', 0) if op == '|=' and k != 0 else (('==', 0) if op in ('&=', '*=') and k == 0 else None)
+    if op in ('+=', '-='):
+        return (p[0], p[1] + (k if op == '+=' else -k))
+    if p[0] == '==':
+        c = p[1]
+        try:
+            return ('==', {'|=': c | k, '&=': c & k, '*=': c * k, '^=': c ^ k, '<<=': c << k, '>>=': c >> k}[op])
+        except (KeyError, ValueError):
+            return None
+    if op == '|=':
+        if k == 0:
+            return p
+        return ('>', 0) if k > 0 and _p_lb(p) is not None and _p_lb(p) >= -1 else ('!=', 0)
+    if op in ('&=', '*=') and k == 0:
+        return ('==', 0)
+    return None
+
+
+def _p_refutes(p, op, k):
+    """`v op k` cannot hold where p holds of v"""
+    if p is None:
+        return False
+    if p[0] == '==':
+        return not _CMP[op](p[1], k)
+    if p[0] == '!=':
+        return op == '==' and k == p[1]
+    c = p[1]                  # v > c
+    return (op == '==' and k <= c) or (op == '<' and k <= c + 1) or (op == '<=' and k <= c)
+
+
+_ARITH = {'+': lambda a, b: a + b, '-': lambda a, b: a - b, '|': lambda a, b: a | b, '&': lambda a, b: a & b,
+          '*': lambda a, b: a * b, '&&': lambda a, b: int(bool(a) and bool(b)), '||': lambda a, b: int(bool(a) or bool(b)),
+          '==': lambda a, b: int(a == b), '!=': lambda a, b: int(a != b), '<': lambda a, b: int(a < b),
+          '>': lambda a, b: int(a > b), '<=': lambda a, b: int(a <= b), '>=': lambda a, b: int(a >= b)}
+
+
+def _kick_owed(g, token_test, token_rel, ls):
+    """Forward analysis of a poll slot, disjunctive (a bounded set of states per point, one per class of paths).
+    State (OWED, U, R): OWED = on some path of the class a batch entry was identified as this thread's kick token (an
+    edge, or a stored comparison, for which the token test came out true) and the pending events were not looked at
+    since (the pending list sampled empty, or detached, under the owner's mutex: the DRAINED points of R-C08f);
+    U = predicates (v == c, v > c, v != c) that hold on every path of the class, on the plain locals that can record
+    the kick (only ever assigned constants / outcomes of the token test / each other, only ever compared with
+    constants) and on the outcome of the token test for the current entry (until a variable it reads changes);
+    R = predicates that hold on every path of the class on which the kick is owed: what a flag, a counter or an
+    inverted flag that records the kick looks like.  An edge whose condition is refuted by U is not taken, one
+    refuted by R is taken only where nothing is owed; a store that overwrites the recording local loses the record,
+    and the owed kick then survives the branch that decides whether the events are run.
+    Returns (instate, ev_in, number of places at which the token test is observed); a state set is a frozenset of
+    (owed, U items, R items)."""
+    addr_taken = {h08.var_name(x['e']) for e in g.events() for x in walk(e) if x.get('k') == 'addr'} - {None}
+    ptr, pedge = _pending_known_empty(g, ls, transfer_only=True)
+    observed = set()
+    CAP = 8
+
+    def tok(x):
+        """(sign, key) of an expression that is true exactly when (sign > 0) / exactly when not (sign < 0) the token
+        of the current entry is the state; key names the comparison"""
+        sg = token_rel(x)
+        if not sg:
+            return 0, None
+        y = strip(x)
+        while True:
+            if y.get('k') == 'un':
+                y = strip(y['e'])
+                continue
+            l, r = strip(y['l']), strip(y['r'])
+            if token_rel(y['l']):
+                y = l
+                continue
+            if token_rel(y['r']):
+                y = r
+                continue
+            break
+        return sg, '$tok:' + ' == '.join(sorted((canon(y['l']), canon(y['r']))))
+
+    def mentions_token(x):
+        return any(token_rel(y) for y in walk(x) if isinstance(y, dict) and y.get('k') in ('bin', 'un'))
+
+    # the locals that can record the kick
+    def plain(lhs):
+        v = h08.var_name(lhs)
+        l = strip(lhs)
+        if v is None or not isinstance(l, dict) or l.get('vk') not in ('local', 'param') or v in addr_taken:
+            return None
+        return v
+    stores = {}
+    for e in g.events():
+        if e['ev'] == 'store' and plain(e['lhs']) is not None:
+            stores.setdefault(plain(e['lhs']), []).append(e)
+
+    def simple_rhs(x, cand):
+        x = strip(x)
+        if not isinstance(x, dict):
+            return False
+        k = x.get('k')
+        if k in ('int', 'null'):
+            return True
+        if k == 'load':
+            return simple_rhs(x['e'], cand)
+        n = h08.var_name(x)
+        if n is not None:
+            return n in cand
+        if token_rel(x):
+            return True
+        if k == 'un':
+            return simple_rhs(x['e'], cand)
+        if k == 'bin' and x.get('op') in _ARITH:
+            return simple_rhs(x['l'], cand) and simple_rhs(x['r'], cand)
+        if k == 'cond':
+            return simple_rhs(x['c'], cand) and simple_rhs(x['a'], cand) and simple_rhs(x['b'], cand)
+        return False
+    cand = set(stores)
+    for blk in g.blocks.values():
+        t = blk.term
+        if t and t.get('cond') is not None and t.get('cls') not in ('SwitchStmt', 'MethodDispatch'):
+            for (op, lc, rc, l, r) in norm_cond(t['cond'], True):
+                v = h08.var_name(l) if isinstance(l, dict) else None
+                if v in cand and not (isinstance(rc, str) and rc.lstrip('-').isdigit()) \
+                        and not (isinstance(r, dict) and strip(r).get('k') in ('int', 'null')):
+                    cand.discard(v)
+    while True:
+        drop = {v for v in cand if not all(e.get('op') in ('++', '--') or ('rhs' in e and simple_rhs(e['rhs'], cand)) for e in stores[v])}
+        if not drop:
+            break
+        cand -= drop
+
+    def tracked(lhs):
+        v = plain(lhs)
+        return v if v in cand else None
+
+    def pick(x, matched, env):
+        """the sub-expression a conditional expression selects"""
+        x = strip(x)
+        while isinstance(x, dict) and x.get('k') == 'cond':
+            c = ev(x['c'], matched, env)
+            if c is None:
+                break
+            x = strip(x['a'] if c else x['b'])
+        return x
+
+    def ev(x, matched, env):
+        x = strip(x)
+        if not isinstance(x, dict):
+            return None
+        k = x.get('k')
+        if k == 'int':
+            return x['v']
+        if k == 'null':
+            return 0
+        if k == 'load':
+            return ev(x['e'], matched, env)
+        n = h08.var_name(x)
+        if n is not None:
+            p = env.get(n)
+            return p[1] if p is not None and p[0] == '==' else None
+        sg, key = tok(x)
+        if sg:
+            if matched is None:
+                p = env.get(key)
+                if p is None or p[0] != '==':
+                    return None
+                matched = bool(p[1])
+            return int(matched == (sg > 0))
+        if k == 'un':
+            a = ev(x['e'], matched, env)
+            if a is None:
+                return None
+            return {'!': int(not a), '-': -a, '~': ~a, '+': a}.get(x.get('op'))
+        if k == 'bin' and x.get('op') in _ARITH:
+            a, b = ev(x['l'], matched, env), ev(x['r'], matched, env)
+            if x['op'] == '&&' and (a == 0 or b == 0):
+                return 0
+            if x['op'] == '||' and ((a is not None and a != 0) or (b is not None and b != 0)):
+                return 1
+            if a is None or b is None:
+                return None
+            return _ARITH[x['op']](a, b)
+        if k == 'cond':
+            y = pick(x, matched, env)
+            return ev(y, matched, env) if y is not x and not (isinstance(y, dict) and y.get('k') == 'cond') else None
+        return None
+
+    def norm_p(p):
+        return ('>', 0) if p is not None and p[0] == '>' and p[1] > 0 else p
+
+    def eff(st):
+        o, U, R = st
+        return dict(U, **R) if o else U
+
+    def seen(st):
+        return (True, st[1], dict(st[1]))
+
+    def served(st):
+        return (False, st[1], {})
+
+    def join1(a, b):
+        U = {}
+        for v in a[1]:
+            if v in b[1]:
+                w = _p_weaken(a[1][v], b[1][v])
+                if w is not None:
+                    U[v] = w
+        if not a[0] and not b[0]:
+            return (False, U, {})
+        if a[0] and b[0]:
+            ea, eb = eff(a), eff(b)
+            R = {}
+            for v in ea:
+                if v in eb:
+                    w = _p_weaken(ea[v], eb[v])
+                    if w is not None:
+                        R[v] = w
+            return (True, U, R)
+        o = a if a[0] else b
+        return (True, U, dict(eff(o)))
+
+    def p_implies(p, q):
+        return p is not None and (p == q or _p_weaken(p, q) == q)
+
+    def implies(x, y):
+        """every concrete situation x describes is described by y"""
+        if x[0] and not y[0]:
+            return False
+        if not all(p_implies(x[1].get(v), q) for v, q in y[1].items()):
+            return False
+        if y[0] and x[0]:
+            ex = eff(x)
+            return all(p_implies(ex.get(v), q) for v, q in y[2].items())
+        return True
+
+    def freeze(st):
+        return (st[0], tuple(sorted(st[1].items())), tuple(sorted(st[2].items())))
+
+    def thaw(f):
+        return (f[0], dict(f[1]), dict(f[2]))
+
+    def reduce_(sts):
+        out = []
+        for x in sts:
+            if any(implies(x, y) for y in out):
+                continue
+            out = [y for y in out if not implies(y, x)] + [x]
+        if len(out) > CAP:
+            # widening: first merge the states that agree on OWED and on the outcome of the token test for the current
+            # entry (counters lose their exact values), then, if that is not enough, everything
+            groups = {}
+            for x in out:
+                gk = (x[0], tuple(sorted((w, p) for w, p in x[1].items() if w.startswith('$tok:'))))
+                groups[gk] = join1(groups[gk], x) if gk in groups else x
+            out = []
+            for gk in sorted(groups, key=repr):
+                x = groups[gk]
+                if any(implies(x, y) for y in out):
+                    continue
+                out = [y for y in out if not implies(y, x)] + [x]
+            if len(out) > CAP:
+                j = out[0]
+                for y in out[1:]:
+                    j = join1(j, y)
+                out = [j]
+        return frozenset(freeze(x) for x in out)
+
+    def forget(st, n):
+        def keep(w):
+            return w != n and not (w.startswith('$tok:') and _mentions_var(w, n))
+        return (st[0], {w: p for w, p in st[1].items() if keep(w)}, {w: p for w, p in st[2].items() if keep(w)})
+
+    def setv(st, v, fU, fR):
+        """new predicates of v: fU from its unconditional one, fR from the one that holds where the kick is owed"""
+        o, U, R = st
+        e = eff(st)
+        nU, nR = norm_p(fU(U.get(v))), (norm_p(fR(e.get(v))) if o else None)
+        st = forget((o, U, dict(e) if o else {}), v)
+        if nU is not None:
+            st[1][v] = nU
+        if nR is not None:
+            st[2][v] = nR
+        return st
+
+    def assign(st, v, op, rhs, matched):
+        if op in ('++', '--'):
+            o2 = '+=' if op == '++' else '-='
+            return setv(st, v, lambda p: _p_apply(p, o2, 1) if p else None, lambda p: _p_apply(p, o2, 1) if p else None)
+        if rhs is None:
+            return setv(st, v, lambda p: None, lambda p: None)
+        src = pick(rhs, matched, st[1])
+        if op == '=' and isinstance(src, dict) and h08.var_name(src) is not None:
+            w = h08.var_name(src)
+            pu, pr = st[1].get(w), eff(st).get(w)
+            return setv(st, v, lambda p: pu, lambda p: pr)
+        kU, kR = ev(rhs, matched, st[1]), ev(rhs, matched, eff(st))
+        return setv(st, v, lambda p: _p_apply(p, op, kU) if kU is not None else None,
+                    lambda p: _p_apply(p, op, kR) if kR is not None else None)
+
+    def with_tok(st, keys, val):
+        st = (st[0], dict(st[1]), dict(st[2]))
+        for k in keys:
+            st[1][k] = ('==', int(val))
+            if st[0]:
+                st[2][k] = ('==', int(val))
+        return st
+
+    def tr1(e, st):
+        if e['ev'] == 'store':
+            rhs, op = e.get('rhs'), e.get('op')
+            has_tok = rhs is not None and mentions_token(rhs)
+            keys = sorted({tok(y)[1] for y in walk(rhs) if isinstance(y, dict) and y.get('k') in ('bin', 'un') and token_rel(y)}) if has_tok else []
+            v = tracked(e['lhs'])
+            n = h08.var_name(e['lhs'])
+            if has_tok:
+                observed.add(e['loc'])
+                if len(keys) == 1 and st[1].get(keys[0], ('?',))[0] == '==':
+                    cases = [bool(st[1][keys[0]][1])]             # outcome already known on these paths
+                else:
+                    cases = [False, True]
+                out = []
+                for m in cases:
+                    s2 = seen(st) if m else st
+                    s2 = with_tok(s2, keys, m)
+                    if v is not None:
+                        s2 = assign(s2, v, op, rhs, m)
+                    elif n is not None:
+                        s2 = forget(s2, n)        # the outcome went somewhere that is not followed
+                    out.append(s2)
+                return out
+            if v is not None:
+                return [assign(st, v, op, rhs, None)]
+            if n is not None:
+                return [forget(st, n)]
+            return [st]
+        if e['ev'] == 'decl':
+            return [forget(st, e['name'])] if e.get('name') else [st]
+        if e['ev'] == 'call':
+            if e.get('callee') in WAITS:
+                st = (st[0], {w: p for w, p in st[1].items() if not w.startswith('$tok:')},
+                      {w: p for w, p in st[2].items() if not w.startswith('$tok:')})
+            if st[0] and ptr(e, (frozenset(), False))[1]:
+                return [served(st)]
+            return [st]
+        return [st]
+
+    def edge1(blk, si, st):
+        t = blk.term
+        if not (t and t.get('cond') is not None and len(blk.succ) == 2 and t.get('cls') not in ('SwitchStmt', 'MethodDispatch')):
+            return st
+        pol = si == 0
+        sg, key = tok(t['cond'])
+        if sg:
+            observed.add(t.get('loc') or ('blk', blk.id))
+            m = (sg > 0) == pol
+            p = st[1].get(key)
+            if p is not None and p[0] == '==' and bool(p[1]) != m:
+                return None                                  # the same comparison came out the other way for this entry
+            if m:
+                st = seen(st)
+            st = with_tok(st, [key], m)
+        elif token_test(t['cond'], pol):
+            observed.add(t.get('loc') or ('blk', blk.id))
+            st = seen(st)
+        if st[0] and pedge(blk, si, (frozenset(), False))[1]:
+            st = served(st)
+        for (op, lc, rc, l, r) in norm_cond(t['cond'], pol):
+            if op not in _CMP or not isinstance(l, dict):
+                continue
+            v = h08.var_name(l)
+            if v is None or v not in cand:
+                continue
+            k = ev(r, None, st[1]) if isinstance(r, dict) else (int(rc) if isinstance(rc, str) and rc.lstrip('-').isdigit() else None)
+            if k is None:
+                continue
+            if _p_refutes(st[1].get(v), op, k):
+                return None                                  # not taken at all
+            if st[0] and _p_refutes(eff(st).get(v), op, k):
+                st = served(st)                              # taken only where no kick is owed
+            if op == '==':
+                st = setv(st, v, lambda p, k=k: ('==', k), lambda p, k=k: ('==', k))
+        return st
+
+    def tr(e, S):
+        return reduce_([s2 for f in sorted(S, key=repr) for s2 in tr1(e, thaw(f))])
+
+    def edge(blk, si, S):
+        out = [s2 for s2 in (edge1(blk, si, thaw(f)) for f in sorted(S, key=repr)) if s2 is not None]
+        return reduce_(out) if out else None
+
+    def join(A, B):
+        return reduce_([thaw(f) for f in sorted(A | B, key=repr)])
+    instate, ev_in = forward(g, frozenset([freeze((False, {}, {}))]), tr, join, edge=edge)
+    return instate, ev_in, len(observed)
+
+
+def kick_not_forgotten(ctx):
+    prog = ctx.prog
+    ctxs, cl = h08.root_contexts(prog, h08.is_event_site, 'runner', anchor=h08.touches_event_handler)
+    polls = {f.q for f in prog.slot_targets('poll')}
+    slots = [(root, g) for (root, g, sites) in ctxs if root.q in polls]
+    if not slots:
+        if any(s.get('event_send') for s in prog.method_tables().values()):
+            raise AnalysisBroken('a poll method offers the kick transport (event_send) but no poll slot reaches the runner')
+        return
+    acc = Acc()
+    for root, g in slots:
+        token_test, token_rel = _kick_token_tests(root, g)
+        ls = locksets(g)
+        instate, ev_in, nobs = _kick_owed(g, token_test, token_rel, ls)
+        if not nobs:
+            raise AnalysisBroken('%s: no batch entry is compared with this thread\'s kick token' % root.name)
+        rets = [(e, ev_in[(pb, pi)]) for (pb, pi, e) in exits_of(g) if (pb, pi) in ev_in]
+        final = instate.get(g.exit)
+        if final is None and not rets:
+            raise AnalysisBroken('%s: no return reachable' % root.name)
+        bad = [e for (e, s) in rets if any(f[0] for f in s)]
+        ok = not bad and not (final is not None and any(f[0] for f in final))
+        acc.add('R-C08i', '%s:seen-kick-runs-events' % root.name, root.loc, ok,
+                'on every path on which an entry of the batch the kernel wait returned was identified as this thread\'s kick '
+                'token (the one-shot kick is thereby used up), the pending list is looked at under the owner\'s mutex (the pending-'
+                'event runner is entered) before the slot returns -- wherever in the batch the kick was: what records it (flag, '
+                'counter) is not cleared or overwritten by a later entry%s' % (
+                    '' if ok else '; a kick consumed without running the events leaves them queued, and every later post finds '
+                                  'the list non-empty and sends no kick: the owner blocks with undelivered posts (the path printed '
+                                  'is a shortest one to the return concerned; meant are those that pass a kick entry of the batch first)'),
+                root.q, None if ok else (path_to(g, bad[0]) if bad else None))
+    acc.emit(ctx)
